@@ -80,6 +80,9 @@ def component(rng, comp, uid, rich, day=None, summary=None, fold=True):
     if summary is None:
         summary = rng.choice(SUMMARIES)
     L.append("SUMMARY:" + summary)
+    if rng.random() < 0.25:
+        # present-but-falsy values
+        L.append(rng.choice(["PRIORITY:0", "SEQUENCE:0", "PRIORITY:5", "SEQUENCE:2"] + (["PERCENT-COMPLETE:0", "PERCENT-COMPLETE:40"] if comp == "VTODO" else [])))
     if rich >= 1:
         if rng.random() < 0.5:
             L.append("DESCRIPTION:" + ("long text " * rng.randint(5, 20)).strip())
